@@ -468,7 +468,7 @@ def check_probe(ck, script, onboarding='ok', include=True):
     for ob in eng.obligations:
         ck.decide(label + f"{ob['kind']} unreachable: {ob['msg'][:50]}", eng, [ob['cond']], z3.BoolVal(True), case, nomodel_case=case)
 
-def check_rrt_wiring(ck):
+def check_rrt_wiring(ck, case=None):
     """RRTPlanner::plan_rrt over a summary of dual_rrt_connect: a node is accepted only if the robot does not collide there AND the joint limits hold there;
     samples are the robot's own random_angles(); start, goal, step, tries and the stop flag are passed through; the path comes back node by node in order."""
     from .c09 import method_body
@@ -507,7 +507,7 @@ def check_rrt_wiring(ck):
     start, goal = jv('start'), jv('goal'); stopf = eng.tmp_ref(st, 0, Opaque('stopflag'))
     c = [n for n in eng.bodies if n.startswith('rrt::<impl at') and n.endswith('::plan_rrt')]
     res = eng.call_body(st, eng.bodies[c[0]], [eng.tmp_ref(st, 0, planner), eng.tmp_ref(st, 0, start), eng.tmp_ref(st, 0, goal), rref, stopf])
-    case = lambda m=None: dict(scene='limits'); label = 'RRTPlanner::plan_rrt: '
+    case = case or (lambda m=None: dict(scene='limits')); label = 'RRTPlanner::plan_rrt: '
     ck.states += len(res)
     okc = len(ev['rrt']) == 1
     ck.decide(label + 'one run of the bidirectional RRT', eng, [], z3.BoolVal(not okc), case, nomodel_case=case)
